@@ -57,6 +57,11 @@ namespace verif
         virtual Scal scal(std::size_t sz)                                     = 0;
         virtual void maxes(std::size_t& mn, std::size_t& ma, std::size_t& mal) = 0;
 
+        // memory_pool_collection: number of free lists (its default reservation is block size / this)
+        virtual std::size_t pools()
+        {
+            return 0;
+        }
         virtual bool has_markers()
         {
             return false;
@@ -349,9 +354,17 @@ namespace verif
         using Base = SubjBase<A, CollSubj<PoolType, Buckets, Src>>;
         using Base::a;
         using Base::member;
+        std::size_t pools_ = 0;
         CollSubj(void* where, int src, std::size_t maxns, std::size_t bs)
         {
             a = construct<A>(where, src, Src{}, maxns, bs);
+            // as detail::free_list_array computes it, with the library's own policy functions
+            using policy = typename Buckets::type;
+            pools_ = policy::index_from_size(maxns) - policy::index_from_size(PoolType::type::min_element_size) + 1;
+        }
+        std::size_t pools() override
+        {
+            return pools_;
         }
         const char* family() const override
         {
